@@ -136,7 +136,7 @@ def pmap(fn, items, workers: int | None = None, wall_cap: float | None = None, o
     with ProcessPoolExecutor(max_workers=workers, mp_context=ctx) as ex:
         pending = {}
         nxt = 0
-        window = workers * 3
+        window = workers + 2  # small look-ahead: a wall cap must be able to stop the batch
 
         def submit_more():
             nonlocal nxt
